@@ -307,6 +307,7 @@ impl Session {
                             }
                         }
                     },
+                    Field::Any => {}
                     Field::B1(b) => match t.parse::<i64>() {
                         Err(_) => {
                             if bad.is_none() { bad = Some(k); }
@@ -339,6 +340,14 @@ impl Session {
             }
         }
         if let Some(k) = bad {
+            // Operations whose result the properties describe by a relation, not as a function (the text colour
+            // is *a* black or white of sufficient contrast; the 8-bit code is *an* entry less than 1.0 from the
+            // closest): an implementation may legitimately choose differently from the model. The direct
+            // oracles of those relations decide; the difference is only counted.
+            if p.op.starts_with("adj textcolor ") || p.op.starts_with("ansi to ") {
+                self.tag("relational-op:model-chose-differently");
+                return;
+            }
             self.n_disagreements += 1;
             if self.disagreements.len() < 25 {
                 self.disagreements.push(Disagreement {
